@@ -594,6 +594,10 @@ Definition root_preimage (s : state) (r : nkey) : bytes :=
   let '(rn, rw) := reach s r in
   state_root_v1 ++ id32 (fst r) ++ id32 (snd r) ++ flat_map (fun wu => hash_warp s rn (fst wu)) rw.
 
+(* The state root under an arbitrary hash function (never axiomatised). *)
+Definition Collision (H : bytes -> N) : Prop := exists x y, x <> y /\ H x = H y.
+Definition state_root (H : bytes -> N) (s : state) (r : nkey) : N := H (root_preimage s r).
+
 (* ------------------------------------------------------------------ *)
 (* Reachable content: the abstract value the state root is meant to commit to.
    Sets are strictly sorted lists; each source node carries its outgoing edges sorted by id. *)
@@ -822,6 +826,22 @@ Definition f3_b : state :=
   build [SInst f3_w f3_r None; SEdge f3_w (mkEdge f3_eid f3_r f3_eto f3_ety)].
 
 Definition f3_root : nkey := (f3_w, f3_r).
+
+(* A two-instance state (portal through an edge slot) and a second construction of the same
+   reachable content: other bucket order, plus an unreachable node, an edge out of it, orphan
+   attachments and an unreferenced instance. *)
+Definition ex_s1 : state :=
+  build [SInst 1 10 None; SInst 2 30 (Some (edge_beta 1 21));
+         SNode 1 10 5; SNode 1 11 6; SNode 2 30 7;
+         SEdge 1 (mkEdge 20 10 11 8); SEdge 1 (mkEdge 21 10 11 9);
+         SEatt 1 21 (Some (Descend 2)); SNatt 1 11 (Some (Atom 4 [1; 2; 3]))].
+Definition ex_s2 : state :=
+  build [SInst 3 1 None; SInst 2 30 (Some (edge_beta 1 21)); SInst 1 10 None;
+         SNode 1 99 1; SNode 2 30 7; SNode 1 11 6; SNode 1 10 5;
+         SEdge 1 (mkEdge 21 10 11 9); SEdge 1 (mkEdge 50 99 10 3); SEdge 1 (mkEdge 20 10 11 8);
+         SNatt 1 77 (Some (Atom 1 [])); SEatt 1 66 (Some (Descend 3));
+         SNatt 1 11 (Some (Atom 4 [1; 2; 3])); SEatt 1 21 (Some (Descend 2))].
+Definition ex_root : nkey := (1, 10).
 
 (* smallest state on which the two state-root implementations are compared *)
 Definition f2_s : state := build [SInst 7 9 None; SNode 7 9 5].
